@@ -46,13 +46,28 @@ fn main() {
                             let (k, t, some) = jobs[i];
                             let part = format!("init:{}:{}{}", k.name(), t.name(), if some { ":some" } else { "" });
                             let mut seen = std::collections::HashSet::new();
-                            for f in c08::offered_sets(k) {
+                            let sets = c08::offered_sets(k);
+                            for f in sets.iter().copied() {
                                 let o = c08::run_case(k, t, some, f);
                                 ev += 1;
                                 *classes.entry(format!("{}:{}", part, o.class)).or_insert(0u64) += 1;
                                 for (kk, d) in o.viols {
                                     if seen.insert(kk.clone()) {
                                         viols.push((part.clone(), kk, format!("offered {:#x}: {}", f, d)));
+                                    }
+                                }
+                            }
+                            // Devices whose status reads do not simply echo the last write: the
+                            // handshake's writes must be the same (a few feature sets suffice).
+                            for quirk in [1u8, 2] {
+                                for f in [sets[0], *sets.last().unwrap(), k.supported() | vlab::drivers::F_VERSION_1] {
+                                    let o = c08::run_case_quirk(k, t, some, f, quirk);
+                                    ev += 1;
+                                    *classes.entry(format!("{}:quirk{}:{}", part, quirk, o.class)).or_insert(0u64) += 1;
+                                    for (kk, d) in o.viols {
+                                        if seen.insert(format!("q{}:{}", quirk, kk)) {
+                                            viols.push((part.clone(), kk, format!("offered {:#x}, device {}: {}", f, if quirk == 1 { "refusing FEATURES_OK" } else { "with a slow reset" }, d)));
+                                        }
                                     }
                                 }
                             }
